@@ -122,13 +122,25 @@ def families(tier, seed):
         op = model["ops"]["eo"]
         vals = {k: (v[1] if v[0] == "const" else 0.45) for k, v in op["vars"].items()}
         out.append(dict(tag=f"{tag}/eval", features=dict(feats, path="eval"), kind="expr_eval", tree=op["eqs"][0][2], values=vals, style=0))
+    # the documented functions at negative, zero and positive arguments, direct evaluation on every Python backend (each backend
+    # brings its own table of stand-in functions for this path)
+    for b in ("default", "jax", "torch"):
+        for fn in gen.C05_FUNCS1:
+            for xv in (-1.7, -0.3, 0.0, 0.45, 2.1):
+                tree = ["+", ["call", fn, V_("a")], ["*", V_("b"), ["call", fn, ["neg", V_("a")]]]]
+                out.append(dict(tag=f"fn-table/{fn}/{xv}/{b}", features=dict(path="eval", fn=fn, backend=b), kind="expr_eval", tree=tree,
+                                values=dict(a=xv, b=0.5), style=0, backend=b))
+        for fn in gen.C05_FUNCS2:
+            for xv in (-1.7, 0.45):
+                out.append(dict(tag=f"fn-table/{fn}/{xv}/{b}", features=dict(path="eval", fn=fn, backend=b), kind="expr_eval",
+                                tree=["call", fn, V_("a"), V_("b")], values=dict(a=xv, b=0.5), style=0, backend=b))
     for tag, feats, model in gen.c05_witnesses():
         from rtc import mdl as _mdl
         feats = dict(feats, **_mdl.tree_features(model["ops"]["eo"]["eqs"][0][2], seed))
         out.append(dict(tag=tag, features=dict(feats, path="code"), kind="field", model=model, vec=False, seed=seed, style=0))
     # operator inputs rewritten textually (summed multi-source inputs), incl. as the last token of the equation
     for tag, feats, model in gen.c01_structured():
-        if tag.startswith("F3-"):
+        if tag.startswith(("F3-", "F10-")):
             out.append(dict(tag=tag, features=dict(feats, path="code"), kind="field", model=model, vec=False, seed=seed, style=0))
     for i, (eq, exp) in enumerate(array_cases()):
         out.append(dict(tag=f"A{i}", features=dict(eq=eq), kind="array_expr", eq=eq, expected=exp, seed=seed + i))
